@@ -10,6 +10,8 @@ package network
 // Stage H: the in-package handshake handlers handleSignatureRequest /
 //          handleSignatureResponse on hand-made Peer objects (fake conn),
 //          observing whether the next handler is reached and with which id.
+// Stage I: histories of > peerIDCacheSize honest handshakes; every identity
+//          handed out earlier must keep its bytes (the ids live in a shared LRU).
 // Stage R: real SecureRequest/SecureResponse exchanges (fresh ECDH per session)
 //          driven synchronously; SignatureRequest/Response of every session
 //          relayed into every session.
@@ -784,6 +786,199 @@ func (e *c32Env) runRelay(r *ev.Run, c *c32RelayCase, acc, rej *int64) {
 	}
 }
 
+// ---------------------------------------------------------------- stage I (identity stays bound: histories of many handshakes)
+
+// The PeerID objects handed out by VerifySignature / stored by p.setID come
+// from a process-wide LRU cache of peerIDCacheSize entries. An identity that
+// was proven once must stay what it was, however many other identities pass
+// through the process afterwards and in whatever order they are looked up.
+
+type c32HistCase struct {
+	Stage string `json:"stage"`
+	N     int    `json:"n"`     // number of distinct keys that authenticate one after the other
+	Route string `json:"route"` // "verify" | "request" | "response"
+	Touch string `json:"touch"` // lookups performed between the handshakes
+	Desc  string `json:"desc,omitempty"`
+}
+
+var c32Touches = []string{"none", "first", "odd", "reverse-sweep-every-10", "arbitrary-src-filler", "sliding-middle"}
+
+type c32HistIdent struct {
+	id  *c32Ident
+	sig []byte // real Authenticator.Signature over the history's session secret
+	pk  *crypto.PublicKey
+}
+
+var (
+	c32HistMu   sync.Mutex
+	c32HistKeys []*c32HistIdent
+)
+
+var c32HistSecret = func() []byte { d := sha256.Sum256([]byte("verif-c32-history-secret")); return d[:] }()
+
+func c32HistKey(i int) *c32HistIdent {
+	c32HistMu.Lock()
+	defer c32HistMu.Unlock()
+	for len(c32HistKeys) <= i {
+		id := c32NewIdent(fmt.Sprintf("hist-%d", len(c32HistKeys)))
+		pk, err := crypto.ParsePublicKey(id.uncomp)
+		if err != nil {
+			panic(err)
+		}
+		c32HistKeys = append(c32HistKeys, &c32HistIdent{id: id, sig: id.auth.Signature(c32HistSecret), pk: pk})
+	}
+	return c32HistKeys[i]
+}
+
+type c32Kept struct {
+	who  int
+	id   module.PeerID
+	peer *Peer
+}
+
+func (e *c32Env) runHistory(r *ev.Run, c *c32HistCase, steps, checks *int64) {
+	r.Eval(1)
+	c.Desc = fmt.Sprintf("%d distinct keys authenticate in sequence via %s, lookups in between: %s (cache size %d)", c.N, c.Route, c.Touch, peerIDCacheSize)
+	// a fresh real cache object: the history starts from a known state
+	cache = newPeerIDCache(peerIDCacheSize)
+	a := newAuthenticator(e.self.w, e.log)
+	next := c32NewNext()
+	a.setNext(next)
+	var kept []c32Kept
+	defer func() {
+		for _, k := range kept {
+			if k.peer != nil {
+				k.peer.Close("verif: history finished")
+			}
+		}
+	}()
+	failed := false
+	fail := func(sig, detail string) {
+		failed = true
+		r.Violation(sig, detail+" — "+c.Desc, c)
+	}
+	checkAll := func(step int) {
+		for _, k := range kept {
+			atomic.AddInt64(checks, 1)
+			want := c32HistKey(k.who).id.idWant
+			if k.id == nil || !bytes.Equal(k.id.Bytes(), want) {
+				fail("proven-identity-changed-after-later-handshakes:"+c.Route,
+					fmt.Sprintf("after %d handshakes the id obtained for key #%d (hx%x) reads %v", step+1, k.who, want, k.id))
+				return
+			}
+			if k.peer != nil && (k.peer.ID() == nil || !bytes.Equal(k.peer.ID().Bytes(), want)) {
+				fail("authenticated-peer-identity-changed-after-later-handshakes:"+c.Route,
+					fmt.Sprintf("after %d handshakes the peer that proved key #%d (hx%x) is identified as %v", step+1, k.who, want, k.peer.ID()))
+				return
+			}
+		}
+	}
+	lookup := func(who, step int) {
+		h := c32HistKey(who)
+		id := NewPeerIDFromPublicKey(h.pk)
+		if id == nil || !bytes.Equal(id.Bytes(), h.id.idWant) {
+			fail("NewPeerIDFromPublicKey-returned-another-identity-after-cache-churn",
+				fmt.Sprintf("after %d handshakes the lookup for key #%d (hx%x) returned %v", step+1, who, h.id.idWant, id))
+		}
+	}
+	for i := 0; i < c.N && !failed; i++ {
+		atomic.AddInt64(steps, 1)
+		h := c32HistKey(i)
+		pub := h.id.uncomp
+		if i%2 == 1 {
+			pub = h.id.w.PublicKey() // compressed
+		}
+		var got c32Kept
+		pan := ev.Catch(func() {
+			switch c.Route {
+			case "verify":
+				id, err := a.VerifySignature(pub, h.sig, c32HistSecret)
+				if err != nil {
+					fail("VerifySignature-rejected-valid-proof:history", fmt.Sprintf("step %d: %v", i, err))
+					return
+				}
+				got = c32Kept{who: i, id: id}
+			default:
+				in := c.Route == "request"
+				conn := c32NewConn()
+				p := newPeer(conn, in, "", e.log)
+				a.onPeer(p)
+				conn.packets()
+				p.secureKey = &secureKey{extra: c32HistSecret}
+				src := NewPeerID(h.id.idWant) // what parsing the packet header does
+				var pkt *Packet
+				if in {
+					a.setWaitInfo(p2pProtoAuthSignatureRequest, p)
+					pkt = newPacket(p2pProtoAuth, p2pProtoAuthSignatureRequest, codec.MP.MustMarshalToBytes(&SignatureRequest{PublicKey: pub, Signature: h.sig}), src)
+				} else {
+					a.setWaitInfo(p2pProtoAuthSignatureResponse, p)
+					pkt = newPacket(p2pProtoAuth, p2pProtoAuthSignatureResponse, codec.MP.MustMarshalToBytes(&SignatureResponse{PublicKey: pub, Signature: h.sig}), src)
+				}
+				a.onPacket(pkt, p)
+				got = c32Kept{who: i, id: next.id[p], peer: p}
+				if next.called[p] != 1 {
+					p.Close("verif: refused")
+					got.peer = nil
+					fail("handshake-"+c.Route+"-refused-valid-proof", fmt.Sprintf("step %d: honest handshake of key #%d refused", i, i))
+				}
+			}
+		})
+		if pan != "" {
+			fail("panic-in-history", pan)
+			break
+		}
+		if failed {
+			break
+		}
+		kept = append(kept, got)
+		checkAll(i)
+		if failed {
+			break
+		}
+		switch c.Touch {
+		case "first":
+			lookup(0, i)
+		case "odd":
+			for j := 1; j <= i; j += 2 {
+				lookup(j, i)
+			}
+		case "reverse-sweep-every-10":
+			if i%10 == 9 {
+				for j := i; j >= 0; j-- {
+					lookup(j, i)
+				}
+			}
+		case "arbitrary-src-filler":
+			// a packet with an arbitrary src passes through NewPeerID as well
+			fb := sha256.Sum256([]byte(fmt.Sprintf("verif-c32-filler-%d", i)))
+			f := NewPeerID(fb[:peerIDSize])
+			if !bytes.Equal(f.Bytes(), fb[:peerIDSize]) {
+				fail("NewPeerID-returned-another-identity", fmt.Sprintf("step %d", i))
+			}
+		case "sliding-middle":
+			lookup(i/2, i)
+		}
+		if c.Touch != "none" && !failed {
+			checkAll(i)
+		}
+	}
+	if failed {
+		return
+	}
+	// finally every key is looked up and verified once more, oldest first
+	for j := 0; j < c.N && !failed; j++ {
+		lookup(j, c.N-1)
+		h := c32HistKey(j)
+		id, err := a.VerifySignature(h.id.uncomp, h.sig, c32HistSecret)
+		if err != nil || id == nil || !bytes.Equal(id.Bytes(), h.id.idWant) {
+			fail("VerifySignature-returned-wrong-id-after-cache-churn", fmt.Sprintf("key #%d (hx%x): id=%v err=%v", j, h.id.idWant, id, err))
+		}
+		if !failed {
+			checkAll(c.N - 1)
+		}
+	}
+}
+
 // ---------------------------------------------------------------- the check
 
 func TestVerifC32(t *testing.T) {
@@ -803,6 +998,10 @@ func TestVerifC32(t *testing.T) {
 			var c c32RelayCase
 			ev.ReplayCase(&c)
 			e.runRelay(r, &c, &a, &b)
+		case "history":
+			var c c32HistCase
+			ev.ReplayCase(&c)
+			e.runHistory(r, &c, &a, &b)
 		case "handler":
 			var c c32Case
 			ev.ReplayCase(&c)
@@ -819,7 +1018,7 @@ func TestVerifC32(t *testing.T) {
 	}
 
 	nK, nS, nF := len(e.keyForms), len(e.secrets), len(e.sigForms)
-	r.Rule(fmt.Sprintf("identities A,B,C + the node itself (fixed keys); %d session secrets from {a 32-byte secret, the same with its last bit flipped, the empty secret, an unrelated one, a 31-byte prefix of the first}; %d public key encodings (65/33/hybrid, wrong lengths, wrong prefixes, negated point, off-curve, unreduced coordinate, empty) ; %d signature forms (as signed, without V, V altered, high-S twin, lengths 0/32/63/66, zeros, r/s swapped/zero/=n/unreduced, %d single-bit flips of every R|S byte). (V) VerifySignature on the full product claimed(3) x key form x signer(3) x signed secret x presented secret x signature form; (H) handleSignatureRequest and handleSignatureResponse on in-package peers for the product restricted to a representative subset of forms, x in/out of sequence x Error field x packet src; (R) real SecureRequest/SecureResponse exchanges, every session's SignatureRequest/Response relayed into every session of {A, A again, B, C}. Non-trivial = (V) key and signature both parse so that ECDSA verification decides, (H,R) every case; distinct = the case tuple.", nS, nK, nF, bits*64))
+	r.Rule(fmt.Sprintf("identities A,B,C + the node itself (fixed keys); %d session secrets from {a 32-byte secret, the same with its last bit flipped, the empty secret, an unrelated one, a 31-byte prefix of the first}; %d public key encodings (65/33/hybrid, wrong lengths, wrong prefixes, negated point, off-curve, unreduced coordinate, empty) ; %d signature forms (as signed, without V, V altered, high-S twin, lengths 0/32/63/66, zeros, r/s swapped/zero/=n/unreduced, %d single-bit flips of every R|S byte). (V) VerifySignature on the full product claimed(3) x key form x signer(3) x signed secret x presented secret x signature form; (H) handleSignatureRequest and handleSignatureResponse on in-package peers for the product restricted to a representative subset of forms, x in/out of sequence x Error field x packet src; (R) real SecureRequest/SecureResponse exchanges, every session's SignatureRequest/Response relayed into every session of {A, A again, B, C}; (I) histories: N distinct keys (quick N in {99,100,101,150,210}, thorough also 1,50,102,199..202,310; peer id cache size 100) prove their identity one after the other via {VerifySignature, handleSignatureRequest, handleSignatureResponse} x 6 lookup patterns in between {none, first, odd, reverse sweep every 10, arbitrary-src filler, sliding middle}; at the end every key is looked up and verified again, starting from a fresh real peerIDCache; after every handshake and every lookup batch every id obtained so far and every authenticated Peer.ID() is compared byte-wise with SHA3(x||y)[12:] of the key it proved. Non-trivial = (V) key and signature both parse so that ECDSA verification decides, (H,R) every case; distinct = the case tuple.", nS, nK, nF, bits*64))
 	r.Assume("signatures are made by the real Authenticator.Signature with fixed keys; forging is represented by the mutation alphabet (no key-space search)",
 		"hybrid public key encodings and the high-S twin of a valid signature are mathematically valid proofs of possession: accepting or refusing them is both allowed",
 		"stage R uses fresh random ECDH keys (crypto/rand inside newSecureKey); the expected verdict does not depend on their values")
@@ -1018,7 +1217,38 @@ func TestVerifC32(t *testing.T) {
 	r.Set("relay_rejected", rrej)
 	r.Sanity(racc > 0 && rrej > 0, "relay outcomes not both seen")
 
+	// ---- stage I (sequential: the histories own the process-wide peer id cache)
+	histN := []int{99, 100, 101, 150, 210}
+	if r.Thorough() {
+		histN = []int{1, 50, 99, 100, 101, 102, 150, 199, 200, 201, 202, 210, 310}
+	}
+	var hsteps, hchecks int64
+	nHist := 0
+	histDone := true
+	for _, route := range []string{"verify", "request", "response"} {
+		for _, touch := range c32Touches {
+			for _, n := range histN {
+				if r.Expired() {
+					histDone = false
+					break
+				}
+				c := &c32HistCase{Stage: "history", N: n, Route: route, Touch: touch}
+				r.Nontrivial(fmt.Sprintf("I%s/%s/%d", route, touch, n))
+				e.runHistory(r, c, &hsteps, &hchecks)
+				nHist++
+			}
+		}
+	}
+	cache = newPeerIDCache(peerIDCacheSize)
+	r.Set("history_cases", nHist)
+	r.Set("history_handshakes", hsteps)
+	r.Set("history_identity_rechecks", hchecks)
+	r.Set("history_max_keys", histN[len(histN)-1])
+	r.Set("peer_id_cache_size", peerIDCacheSize)
+	r.Sanity(histDone && histN[len(histN)-1] > 2*peerIDCacheSize, "history family incomplete or too short to wrap the cache twice")
+
 	a := e.ids[0]
+	r.Sample(map[string]interface{}{"stage": "I", "case": "210 distinct keys authenticate through handleSignatureRequest, no lookups in between", "expect": "after every handshake each of the earlier peers still carries SHA3(x||y)[12:] of the key it proved"})
 	r.Sample(map[string]interface{}{"stage": "V", "case": "claimed=A key=compressed-33 signer=A signed=secret0 presented=secret0 sig=without-v-64", "expect": "accept, id=" + fmt.Sprintf("hx%x", a.idWant)})
 	r.Sample(map[string]interface{}{"stage": "V", "case": "claimed=A key=uncompressed-65 signer=A signed=secret0 presented=secret1 (last bit differs) sig=as-signed-65", "expect": "reject: signature over another session's secret"})
 	r.Sample(map[string]interface{}{"stage": "V", "case": "claimed=A key=compressed-other-parity signer=A ...", "expect": "reject: the encoding names the negated point, a different key"})
